@@ -108,6 +108,10 @@ class C04(Prop):
         for m, minv in self.big + self.huge:
             yield {"k": "inverse", "m": m, "exp": minv}
             yield {"k": "compose", "a": m, "b": minv}
+        # an operand composed with itself (one object in both roles)
+        for n in (1, 2):
+            for m, _mi in (self.maps[n] if n == 1 else rng.sample(self.maps[n], 300)):
+                yield {"k": "compose", "a": m, "b": m, "same": True}
         for n in (1, 2, 3, 4):
             yield {"k": "identity", "n": n}
         # z2inv must refuse singular matrices
@@ -147,6 +151,8 @@ class C04(Prop):
             elif k == "compose":
                 rec["a"], rec["b"] = scn["a"], scn["b"]
                 A, B = be.cmap(scn["a"]), be.cmap(scn["b"])
+                if scn.get("same"):
+                    B = A
                 R = A.compose(B)
                 rec["ret"] = be.p_list(R)
                 rec["a1"], rec["b1"] = be.p_list(A), be.p_list(B)
